@@ -18,6 +18,23 @@
  *   length  exact-size heap blocks of every length 0..64 and around 256/4096:
  *           the loop reads exactly n octets (ASan red zone behind the block)
  *   words   16-bit-word buffers of every length 0..64 cut at every position
+ *   long    structured boundary family of lengths: n = B + d for every power of
+ *           two B = 2^16 .. 2^20 and d in {-1, 0, +1, +5} (octet variant: n octets,
+ *           word variant: n words), non-periodic content in an exact-size heap
+ *           block, two initial values; whole == bit-serial reference, and
+ *           crc(a||b) = continue(crc(a), b) at cuts {1, n/3, B-1, n-1}
+ *   chunked one buffer of 2^20+5 octets (and its image as 2^19+2 words) folded
+ *           through the continuing functions in chunks of c octets/words for a
+ *           fixed list of chunk sizes straddling 2^2, 2^8, 2^12, 2^16, 2^18
+ *   huge    the same boundary family at B = 2^31, 2^32 (thorough: also 2^33,
+ *           2^34 octets; 2^30, 2^31, 2^32 words): a MAP_NORESERVE anonymous
+ *           mapping whose first and last octets are patterned and whose middle is
+ *           the kernel's zero page, ending directly in front of a PROT_NONE page.
+ *           Reference: bit-serial over head and tail, and the zero-octet step
+ *           (GF(2)-linear in the register) raised to the gap's length by
+ *           square-and-multiply on 16x16 bit matrices (anchored against the
+ *           bit-serial reference).  Quick runs three of these (2^32+5 and 2^31+5
+ *           octets, 2^31+5 words).
  */
 #include "mc.h"
 
@@ -352,22 +369,377 @@ family_words(void)
             }
 }
 
+/* ---- reference for runs of zero octets -------------------------------------
+ * Feeding a zero octet is a GF(2)-linear map of the register (every step of
+ * ref_octet() is a shift and a conditional xor of a constant that depends on
+ * one register bit only).  Its matrix is read off ref_octet() on the 16 unit
+ * registers and raised to the run's length by square-and-multiply, so that a
+ * gap of 2^32 zero octets costs 32 matrix products instead of 2^35 bit steps.
+ * Nothing of ufw is involved; anchored below against the bit-serial loop. */
+
+struct m16 {
+    uint16_t col[16]; /* col[j]: image of the register with only bit j set */
+};
+
+static uint16_t
+m16_apply(const struct m16 *m, uint16_t v)
+{
+    uint16_t r = 0;
+    for (int j = 0; j < 16; ++j)
+        if ((v >> j) & 1u)
+            r ^= m->col[j];
+    return r;
+}
+
+static void
+m16_mul(struct m16 *out, const struct m16 *a, const struct m16 *b) /* out = a after b */
+{
+    struct m16 t;
+    for (int j = 0; j < 16; ++j)
+        t.col[j] = m16_apply(a, b->col[j]);
+    *out = t;
+}
+
+static uint16_t
+ref_zeros(uint16_t reg, uint64_t count)
+{
+    struct m16 sq, acc;
+    for (int j = 0; j < 16; ++j) {
+        sq.col[j] = ref_octet((uint16_t)(1u << j), 0);
+        acc.col[j] = (uint16_t)(1u << j);
+    }
+    while (count) {
+        if (count & 1u)
+            m16_mul(&acc, &sq, &acc);
+        m16_mul(&sq, &sq, &sq);
+        count >>= 1;
+    }
+    return m16_apply(&acc, reg);
+}
+
+static void
+anchors_zero_runs(void)
+{
+    /* linearity of the zero-octet step over the whole register space */
+    struct m16 z;
+    for (int j = 0; j < 16; ++j)
+        z.col[j] = ref_octet((uint16_t)(1u << j), 0);
+    for (unsigned a = 0; a < 65536; ++a)
+        MC_ANCHOR(m16_apply(&z, (uint16_t)a) == ref_octet((uint16_t)a, 0),
+                  "reference: the zero-octet step must be linear in the register");
+    static const uint64_t runs[] = { 0, 1, 2, 3, 255, 256, 257, 32767, 65535, 65536, 65537, 300007 };
+    static const uint16_t regs[] = { 0x0001, 0x8000, 0xffff, 0xbb3d, 0xa001 };
+    for (size_t ri = 0; ri < sizeof regs / sizeof regs[0]; ++ri) {
+        uint16_t reg = regs[ri];
+        uint64_t done = 0;
+        for (size_t i = 0; i < sizeof runs / sizeof runs[0]; ++i) {
+            for (; done < runs[i]; ++done)
+                reg = ref_octet(reg, 0);
+            MC_ANCHOR(ref_zeros(regs[ri], runs[i]) == reg,
+                      "reference: matrix power for a run of zero octets must equal the bit-serial loop");
+        }
+    }
+    /* a run of zeros must matter: from a non-zero register 2^32 and 2^18 zero
+     * octets do not return to the register they started from */
+    MC_ANCHOR(ref_zeros(0xbb3d, (uint64_t)1 << 32) != 0xbb3d && ref_zeros(0xbb3d, (uint64_t)1 << 18) != 0xbb3d,
+              "reference: zero runs of the boundary lengths must change a non-zero register");
+}
+
+/* non-periodic content for long buffers */
+static inline unsigned char
+mix8(uint64_t i)
+{
+    return (unsigned char)((i * 0x9E3779B97F4A7C15ull) >> 56);
+}
+
+static inline uint16_t
+mix16(uint64_t i)
+{
+    return (uint16_t)((i * 0x9E3779B97F4A7C15ull) >> 48);
+}
+
+/* ---- family: long (lengths straddling 2^16 .. 2^20) ----------------------- */
+
+static void
+long_case(bool words, int lg, int d, uint16_t init)
+{
+    const size_t B = (size_t)1 << lg;
+    const size_t n = (size_t)((long long)B + d);   /* octets, or words */
+    if (!mc_case("long variant=%s n=2^%d%+d=%zu init=%04x content=mix cuts={1,n/3,2^%d-1,n-1}",
+                 words ? "words" : "octets", lg, d, n, init, lg))
+        return;
+    const size_t unit = words ? 2 : 1;
+    const size_t no = n * unit;                    /* octets of the image */
+    void *blk = mc_exact(no);
+    if (words) {
+        uint16_t *w = blk;
+        for (size_t i = 0; i < n; ++i)
+            w[i] = mix16(i);
+    } else {
+        unsigned char *b = blk;
+        for (size_t i = 0; i < n; ++i)
+            b[i] = mix8(i);
+    }
+    const unsigned char *img = blk;                /* the in-memory octet image */
+    uint16_t *pre = malloc((no + 1) * sizeof *pre);
+    if (pre == NULL)
+        mc_broken("out of memory");
+    pre[0] = init;
+    for (size_t i = 0; i < no; ++i)
+        pre[i + 1] = ref_octet(pre[i], img[i]);
+    const uint16_t whole = words ? ufw_crc16_arc_u16(init, blk, n) : ufw_crc16_arc(init, blk, n);
+    mc_trans(1);
+    mc_log("whole=%04x reference=%04x", whole, pre[no]);
+    if (whole != pre[no]) {
+        if (words)
+            mc_fail("C16/word-variant-is-octet-image",
+                    "ufw_crc16_arc_u16(0x%04x, %zu words) = 0x%04x, CRC-16/ARC of the %zu-octet image is 0x%04x",
+                    init, n, whole, no, pre[no]);
+        else
+            mc_fail("C16/buffer-is-crc16-arc", "ufw_crc16_arc(0x%04x, %zu octets) = 0x%04x, CRC-16/ARC gives 0x%04x",
+                    init, n, whole, pre[no]);
+    } else {
+        const size_t cuts[4] = { 1, n / 3, B - 1, n - 1 };
+        for (int ci = 0; ci < 4; ++ci) {
+            const size_t k = cuts[ci];
+            if (k > n)
+                continue;
+            uint16_t a, ab;
+            if (words) {
+                a = ufw_crc16_arc_u16(init, blk, k);
+                ab = ufw_crc16_arc_u16(a, (const uint16_t *)blk + k, n - k);
+            } else {
+                a = ufw_crc16_arc(init, blk, k);
+                ab = ufw_crc16_arc(a, (const unsigned char *)blk + k, n - k);
+            }
+            mc_trans(2);
+            mc_log("cut=%zu first=%04x reference=%04x continued=%04x", k, a, pre[k * unit], ab);
+            if (a != pre[k * unit]) {
+                mc_fail(words ? "C16/word-variant-is-octet-image" : "C16/buffer-is-crc16-arc",
+                        "first %zu of %zu %s from 0x%04x: 0x%04x, CRC-16/ARC gives 0x%04x", k, n,
+                        words ? "words" : "octets", init, a, pre[k * unit]);
+                break;
+            }
+            if (ab != whole) {
+                mc_fail("C16/concatenation-continues", "%zu %s cut at %zu: whole 0x%04x, continued 0x%04x", n,
+                        words ? "words" : "octets", k, whole, ab);
+                break;
+            }
+        }
+    }
+    if (init == 0) {
+        const uint16_t z = words ? ufw_buffer_crc16_arc_u16(blk, n) : ufw_buffer_crc16_arc(blk, n);
+        mc_trans(1);
+        if (z != pre[no])
+            mc_fail("C16/buffer-starts-from-zero", "%s over %zu %s: 0x%04x, expected 0x%04x",
+                    words ? "ufw_buffer_crc16_arc_u16" : "ufw_buffer_crc16_arc", n, words ? "words" : "octets", z,
+                    pre[no]);
+    }
+    free(pre);
+    free(blk);
+    mc_end(true, words ? "long-words-agree" : "long-agrees");
+}
+
+static void
+family_long(void)
+{
+    static const int ds[4] = { -1, 0, +1, +5 };
+    static const uint16_t inits[2] = { 0x0000, 0xffff };
+    for (int words = 0; words < 2; ++words)
+        for (int lg = 16; lg <= 20; ++lg)
+            for (int di = 0; di < 4; ++di)
+                for (int ii = 0; ii < 2; ++ii)
+                    long_case(words != 0, lg, ds[di], inits[ii]);
+}
+
+/* ---- family: chunked ------------------------------------------------------- */
+
+#define CHUNKED_OCTETS (((size_t)1 << 20) + 5)
+#define CHUNKED_WORDS (((size_t)1 << 19) + 2)
+
+static void
+family_chunked(void)
+{
+    static const size_t chunks[] = { 1, 2, 3, 4, 5, 7, 8, 9, 255, 256, 257, 4095, 4096, 4097, 65535, 65536,
+                                     65537, 262143, 262144, 262145, 524288 };
+    static const uint16_t inits[2] = { 0x0000, 0xffff };
+    unsigned char *ob = NULL;
+    uint16_t *wb = NULL;
+    uint16_t oref[2] = { 0, 0 }, wref[2] = { 0, 0 };
+    for (int words = 0; words < 2; ++words)
+        for (size_t ci = 0; ci < sizeof chunks / sizeof chunks[0]; ++ci)
+            for (int ii = 0; ii < 2; ++ii) {
+                const size_t c = chunks[ci];
+                const size_t n = words ? CHUNKED_WORDS : CHUNKED_OCTETS;
+                if (!mc_case("chunked variant=%s n=%zu chunk=%zu init=%04x content=mix: continue over every chunk",
+                             words ? "words" : "octets", n, c, inits[ii]))
+                    continue;
+                if (!words && ob == NULL) {
+                    ob = mc_exact(n);
+                    for (size_t i = 0; i < n; ++i)
+                        ob[i] = mix8(i);
+                    for (int k = 0; k < 2; ++k)
+                        oref[k] = ref_buf(inits[k], ob, n);
+                }
+                if (words && wb == NULL) {
+                    wb = mc_exact(2 * n);
+                    for (size_t i = 0; i < n; ++i)
+                        wb[i] = mix16(i ^ 0x5555u);
+                    for (int k = 0; k < 2; ++k)
+                        wref[k] = ref_buf(inits[k], (const unsigned char *)wb, 2 * n);
+                }
+                uint16_t reg = inits[ii];
+                size_t calls = 0;
+                for (size_t pos = 0; pos < n; pos += c) {
+                    const size_t len = (n - pos < c) ? n - pos : c;
+                    reg = words ? ufw_crc16_arc_u16(reg, wb + pos, len) : ufw_crc16_arc(reg, ob + pos, len);
+                    ++calls;
+                }
+                mc_trans((int64_t)calls);
+                const uint16_t want = words ? wref[ii] : oref[ii];
+                mc_log("calls=%zu result=%04x reference=%04x", calls, reg, want);
+                if (reg != want)
+                    mc_fail("C16/concatenation-continues",
+                            "%zu %s from 0x%04x continued in chunks of %zu: 0x%04x, CRC-16/ARC of the whole is 0x%04x", n,
+                            words ? "words" : "octets", inits[ii], c, reg, want);
+                mc_end(true, "chunked-agrees");
+            }
+    free(ob);
+    free(wb);
+}
+
+/* ---- family: huge (lengths straddling 2^31 .. 2^34) ------------------------ */
+
+/* One library call over several GiB takes longer than the runtime's 20 s
+ * no-progress watchdog allows: give the case in flight a budget of its own. */
+static void
+case_budget(int seconds)
+{
+    mc.tick_idx = mc.cur;                    /* this order: see mc_tick() */
+    mc.tick_same = MC_HANG_TICKS - seconds;
+}
+
+#define HUGE_HEAD 4098u
+#define HUGE_TAIL 4102u
+
+struct hugecase {
+    bool words;
+    bool from_zero; /* through the ufw_buffer_* function */
+    int lg;         /* boundary 2^lg, in octets or words */
+    int d;
+};
+
+static void
+huge_case(const struct hugecase *h)
+{
+    const uint64_t n = (uint64_t)(((int64_t)1 << h->lg) + h->d); /* octets or words */
+    const uint64_t no = h->words ? 2 * n : n;
+    const uint16_t init = h->from_zero ? 0x0000 : 0xffff;
+    const char *fn = h->words ? (h->from_zero ? "ufw_buffer_crc16_arc_u16" : "ufw_crc16_arc_u16")
+                              : (h->from_zero ? "ufw_buffer_crc16_arc" : "ufw_crc16_arc");
+    if (!mc_case("huge fn=%s n=2^%d%+d=%llu %s init=%04x content=mix[%u] zeros mix[%u] (one call)", fn, h->lg, h->d,
+                 (unsigned long long)n, h->words ? "words" : "octets", init, HUGE_HEAD, HUGE_TAIL))
+        return;
+    if (sizeof(size_t) < 8 || no > SIZE_MAX - 65536u) {
+        mc_cap("huge: size_t cannot express %llu octets", (unsigned long long)no);
+        mc_end(false, "huge-unavailable");
+        return;
+    }
+    const size_t page = (size_t)sysconf(_SC_PAGESIZE);
+    const size_t body = ((size_t)no + page - 1) / page * page;
+    unsigned char *map = mmap(NULL, body + page, PROT_READ, MAP_PRIVATE | MAP_ANONYMOUS | MAP_NORESERVE, -1, 0);
+    if (map == MAP_FAILED) {
+        mc_cap("huge: cannot map %llu octets of address space", (unsigned long long)no);
+        mc_end(false, "huge-unavailable");
+        return;
+    }
+    /* the buffer ends where an inaccessible page begins */
+    unsigned char *buf = map + body - (size_t)no;
+    const size_t head_pages = ((size_t)(buf - map) + HUGE_HEAD + page - 1) / page * page;
+    const size_t tail_pages = (HUGE_TAIL + page - 1) / page * page;
+    if (mprotect(map + body, page, PROT_NONE) != 0 || mprotect(map, head_pages, PROT_READ | PROT_WRITE) != 0
+        || mprotect(map + body - tail_pages, tail_pages, PROT_READ | PROT_WRITE) != 0)
+        mc_broken("huge: mprotect failed");
+    unsigned char *tail = buf + no - HUGE_TAIL;
+    for (size_t i = 0; i < HUGE_HEAD; ++i)
+        buf[i] = mix8(i);
+    for (size_t i = 0; i < HUGE_TAIL; ++i)
+        tail[i] = mix8(0x100000u + i);
+    const uint64_t gap = no - HUGE_HEAD - HUGE_TAIL;
+    uint16_t want = ref_buf(init, buf, HUGE_HEAD);
+    const uint16_t before_gap = want;
+    want = ref_zeros(want, gap);
+    const uint16_t after_gap = want;
+    want = ref_buf(want, tail, HUGE_TAIL);
+    /* the table-driven code does 3..4 s per GiB under ASan, a correct bit-serial one about 10: leave room for
+     * slow-but-right code on a busy machine; a real hang in the quick tier is still reported inside its deadline */
+    case_budget(mc_thorough() ? 120 + 60 * (int)(no >> 30) : 150);
+    uint16_t got;
+    if (h->words)
+        got = h->from_zero ? ufw_buffer_crc16_arc_u16((const uint16_t *)(const void *)buf, (size_t)n)
+                           : ufw_crc16_arc_u16(init, (const uint16_t *)(const void *)buf, (size_t)n);
+    else
+        got = h->from_zero ? ufw_buffer_crc16_arc(buf, (size_t)n) : ufw_crc16_arc(init, buf, (size_t)n);
+    mc_trans(1);
+    mc_log("reference: after head %04x, after %llu zero octets %04x, after tail %04x; %s returned %04x", before_gap,
+           (unsigned long long)gap, after_gap, want, fn, got);
+    if (got != want)
+        mc_fail(h->words ? "C16/word-variant-is-octet-image" : (h->from_zero ? "C16/buffer-starts-from-zero" : "C16/buffer-is-crc16-arc"),
+                "%s over %llu %s from 0x%04x = 0x%04x, CRC-16/ARC of the %llu-octet image is 0x%04x", fn,
+                (unsigned long long)n, h->words ? "words" : "octets", init, got, (unsigned long long)no, want);
+    munmap(map, body + page);
+    mc_end(true, "huge-agrees");
+}
+
+static void
+family_huge(void)
+{
+    static const struct hugecase quick[] = {
+        { false, false, 32, +5 },
+        { true, false, 31, +5 },
+        { false, false, 31, +5 },
+    };
+    static const struct hugecase thorough[] = {
+        /* longest first, so that they land on different shards */
+        { true, false, 32, +5 },  { true, false, 32, 0 },   { false, false, 34, +5 }, { false, false, 34, 0 },
+        { false, false, 33, +5 }, { false, false, 33, 0 },  { true, false, 31, +5 },  { true, false, 31, 0 },
+        { true, true, 31, +5 },   { false, false, 32, +5 }, { false, false, 32, +1 }, { false, false, 32, 0 },
+        { false, false, 32, -1 }, { false, true, 32, +5 },  { true, false, 30, +5 },  { true, false, 30, 0 },
+        { true, false, 30, -1 },  { false, false, 31, +5 }, { false, false, 31, +1 }, { false, false, 31, 0 },
+        { false, false, 31, -1 },
+    };
+    if (mc_thorough())
+        for (size_t i = 0; i < sizeof thorough / sizeof thorough[0]; ++i)
+            huge_case(&thorough[i]);
+    else
+        for (size_t i = 0; i < sizeof quick / sizeof quick[0]; ++i)
+            huge_case(&quick[i]);
+}
+
 int
 main(int argc, char **argv)
 {
     mc_init(argc, argv);
     anchors();
+    anchors_zero_runs();
+    family_huge();   /* first: the longest cases start at once on their shards */
     family_step();
     family_pair();
     family_split();
     family_length();
     family_words();
+    family_long();
+    family_chunked();
     mc_finish(true, mc_thorough()
         ? "all 2^24 (state,octet) steps; all 2^16 two-octet buffers and words from all 2^16 states; "
           "260 structured 4 KiB buffers x 3 initial values cut at every position; "
-          "exact blocks of lengths 0..64,255..257,4095..4097; word buffers of lengths 0..64 cut at every position"
+          "exact blocks of lengths 0..64,255..257,4095..4097; word buffers of lengths 0..64 cut at every position; "
+          "lengths 2^k+{-1,0,1,5} for k=16..20 (octets and words) with 4 cuts; 2^20+5 octets / 2^19+2 words continued in "
+          "chunks of 21 sizes; single calls over 2^31,2^32+{-1,0,1,5} and 2^33,2^34+{0,5} octets and 2^30,2^31,2^32+{0,5} words"
         : "all 2^24 (state,octet) steps; all 2^16 two-octet buffers and words from 6 states; "
           "13 structured 4 KiB buffers and 247 single-octet-then-zeros buffers of 256 octets x 3 initial values cut at every position; "
-          "exact blocks of lengths 0..64,255..257,4095..4097; word buffers of lengths 0..64 cut at every position");
+          "exact blocks of lengths 0..64,255..257,4095..4097; word buffers of lengths 0..64 cut at every position; "
+          "lengths 2^k+{-1,0,1,5} for k=16..20 (octets and words) with 4 cuts; 2^20+5 octets / 2^19+2 words continued in "
+          "chunks of 21 sizes; single calls over 2^32+5 octets, 2^31+5 octets, 2^31+5 words");
     return 0;
 }
